@@ -369,7 +369,7 @@ private:
     constexpr auto memory_order = TSAN_MEMORY_ORDER(std::memory_order_release, std::memory_order_relaxed);
     control_block->local_epoch.store(new_epoch, memory_order);
 
-    auto diff = std::min<int>(static_cast<int>(number_epochs), static_cast<int>(new_epoch - old_epoch));
+    auto diff = static_cast<int>(std::min<epoch_t>(number_epochs, new_epoch - old_epoch));
     epoch_t epoch_idx = local_epoch_idx;
     for (int i = diff - 1; i >= 0; --i) {
       epoch_idx = (new_epoch - i) % number_epochs;
